@@ -116,7 +116,8 @@ FASTOR_INLINE void _transpose<float,3,3>(const float * FASTOR_RESTRICT a, float 
     // 5 OPS
     __m128 row0 = _mm_loadu_ps(a);
     __m128 row1 = _mm_loadu_ps(a+3);
-    __m128 row2 = _mm_loadu_ps(a+6);
+    // only a[6..8] exist - do not read a[9]
+    __m128 row2 = _mm_movelh_ps(_mm_castpd_ps(_mm_load_sd((const double*)(a+6))), _mm_load_ss(a+8));
 
     __m128 T0   = _mm_unpacklo_ps(row0,row1);
     __m128 T1   = _mm_unpackhi_ps(row0,row1);
@@ -127,7 +128,9 @@ FASTOR_INLINE void _transpose<float,3,3>(const float * FASTOR_RESTRICT a, float 
 
     _mm_storeu_ps(out,row0);
     _mm_storeu_ps(out+3,row1);
-    _mm_storeu_ps(out+6,row2); // out of range for out[9]
+    // only out[6..8] exist - do not write out[9]
+    _mm_storel_pi((__m64*)(out+6),row2);
+    _mm_store_ss(out+8,_mm_movehl_ps(row2,row2));
 #else
     // 3 OPS
     // gcc/clang emit vpermsps tht operate on (%rsp)
